@@ -40,6 +40,12 @@ def gen_cases(tier, seed):
             for dim in (1, 2):
                 cases.append(dict(dim=dim, cartesian=False, bt=bt, b=b, bb=b if dim == 2 else bb,
                                   keys=keys, cost=1.0))
+    # generators without a border (omega_border_batch_size=None): the interior batch is still the exact product / pairing
+    for (bt, b) in ((2, 2), (3, 3), (2, 4), (1, 3)):
+        for dim in (1, 2):
+            cases.append(dict(dim=dim, cartesian=True, bt=bt, b=b, bb=None, keys=keys[:1], cost=0.5))
+            if bt == b:
+                cases.append(dict(dim=dim, cartesian=False, bt=bt, b=b, bb=None, keys=keys[:1], cost=0.5))
     # mismatching paired sizes: must be rejected explicitly, not mis-paired
     for (bt, b) in ((2, 3), (3, 1)):
         cases.append(dict(dim=2, cartesian=False, bt=bt, b=b, bb=b, keys=keys[:1], cost=0.3))
@@ -58,19 +64,28 @@ def run_case(case, rec):
     mode = "cartesian" if cart else "paired"
     for key in case["keys"]:
         d = dict(kind="nonstatio", key=key, n=2 * b + 1, b=b, dim=dim, min_pts=[-1.0, 2.0][:dim],
-                 max_pts=[1.0, 3.0][:dim], nb=4 * (bb + 2) if dim == 2 else 2, bb=bb if dim == 2 else 1,
+                 max_pts=[1.0, 3.0][:dim], nb=4 * ((bb or 0) + 2) if dim == 2 else 2, bb=bb if dim == 2 else 1,
                  nt=3 * bt + 1, bt=bt, tmin=10.0, tmax=11.0, cartesian=cart)
+        if bb is None:
+            d.update(nb=None, bb=None)
+            rec.count("generators_without_border")
+        legit = cart or bt == b  # documented configurations: a refusal of these is a failure, not an unsupported input
         try:
-            g = guard.call(gens.make_generator, d)
+            g = (guard.call_supported if legit else guard.call)(gens.make_generator, d)
         except guard.Unsupported as u:
             rec.unsupp("%s bt=%d b=%d: %s" % (mode, bt, b, u.reason[:80]))
+            return
+        except guard.Crash as c:
+            rec.violation("%s/dim%d/%s/constructor-refused" % (mode, dim, "no-border" if bb is None else "border"),
+                          "documented configuration refused by the constructor: %s" % c)
             return
         step = jax.jit(lambda gg: gg.get_batch())
         for k in range(20):
             g, batch = guard.call(step, g)
             tx = np.asarray(batch.times_x_inside_batch)
-            tdx = np.asarray(batch.times_x_border_batch)
-            times, omega, border = np.asarray(g.times), np.asarray(g.omega), np.asarray(g.omega_border)
+            tdx = np.asarray(batch.times_x_border_batch) if batch.times_x_border_batch is not None else None
+            times, omega = np.asarray(g.times), np.asarray(g.omega)
+            border = np.asarray(g.omega_border) if g.omega_border is not None else None
             rec.count("batches_checked")
             sig = "%s/dim%d" % (mode, dim)
             rows = bt * b if cart else b
@@ -102,6 +117,11 @@ def run_case(case, rec):
             if len(set(T.tolist())) >= 2 and len(X) >= 2:
                 rec.nontrivial((dim, mode, bt, b, bb, key, k))
             # ---- border
+            if bb is None:
+                if dim == 2 and tdx is not None:
+                    rec.violation(sig + "/border-not-none", "a border batch is returned although none was requested")
+                if dim == 2 or tdx is None:
+                    continue
             nf = 2 * dim
             if dim == 1:
                 exp_shape = (bt, 2, 2)
